@@ -2,7 +2,7 @@
    sequences of M-BE micro-ops. [exec] returns the micro-op list it ran (so every theorem about
    [run s ops] for all op lists applies) together with the final state; observations are the
    state's [obs] log, into which command results are interleaved in time order. *)
-From Coq Require Import List NArith Arith Bool.
+From Coq Require Import List NArith Arith Bool FMapPositive.
 From Quill Require Import Queue.BQDefs Backend.BEDefs.
 Import ListNotations.
 Local Open Scope N_scope.
@@ -99,6 +99,20 @@ Definition exec_simple (sx : st * list op) (c : cmd) : st * list op :=
   | CPoll _ => sx
   end.
 
+(* Speed only (used by the extracted runner on cases with hundreds of threads): the per-thread maps are
+   functions updated by wrapping closures; [compact] rebuilds them as lookups in a balanced map for
+   thread ids below [n]. The new functions are pointwise equal to the old ones (compact_ext below), so
+   every later step computes the same observations. *)
+Definition tabulate {A} (n : nat) (f : nat -> A) : nat -> A :=
+  let m := fold_left (fun m u => PositiveMap.add (Pos.of_succ_nat u) (f u) m) (seq 0 n) (PositiveMap.empty A) in
+  fun u => match PositiveMap.find (Pos.of_succ_nat u) m with Some x => x | None => f u end.
+
+Definition compact (n : nat) (s : st) : st :=
+  {| clock := clock s; th := tabulate n (th s); registered := registered s; newflag := newflag s;
+     invalid_cnt := invalid_cnt s; cache := cache s; pc := pc s; tsnow := tsnow s; lg := lg s; sk := sk s;
+     nsinks := nsinks s; nloggers := nloggers s; flags := flags s; obs := obs s;
+     issued := tabulate n (issued s); delivered := tabulate n (delivered s); plog := plog s; gh := gh s |}.
+
 Definition yield_of (p : pc_t) : N :=
   match p with
   | PRefreshed => 1 | PTimed => 2 | PReading (_ :: _) => 3 | PBatch => 4 | PSingle => 5
@@ -118,30 +132,39 @@ Fixpoint bump (y : N) (cnt : list (N * N)) : list (N * N) * N :=
   | (y', n) :: r => if y =? y' then ((y', n + 1) :: r, n) else let (r', v) := bump y r in ((y', n) :: r', v)
   end.
 
-Fixpoint poll_loop (fuel : nat) (sx : st * list op) (inj : list (N * N * list cmd)) (cnt : list (N * N)) : st * list op :=
+(* scans over the cache wrap one closure per context: compact after them (cn = 0: never) *)
+Definition scans (p : pc_t) : bool := match p with PBatch | PIdle2 | PIdle3 | PSingle => true | _ => false end.
+
+Fixpoint poll_loop (cn : nat) (fuel : nat) (sx : st * list op) (inj : list (N * N * list cmd)) (cnt : list (N * N)) : st * list op :=
   match fuel with
   | O => sx
   | S f =>
+      let p0 := pc (fst sx) in
       let sx1 := app_ops sx [B] in
+      let sx1 := if Nat.eqb cn 0 then sx1 else if scans p0 then (compact cn (fst sx1), snd sx1) else sx1 in
       match pc (fst sx1) with
       | PIdle => note sx1 [O_POLLEND]
       | p =>
           let y := yield_of p in
           let (cnt', v) := bump y cnt in
           let sx2 := fold_left exec_simple (find_inj y v inj) sx1 in
-          poll_loop f sx2 inj cnt'
+          poll_loop cn f sx2 inj cnt'
       end
   end.
 
-Definition exec (sx : st * list op) (c : cmd) : st * list op :=
+Definition exec_gen (cn : nat) (sx : st * list op) (c : cmd) : st * list op :=
   match c with
   | CPoll inj =>
       (* enough fuel for every micro-step of one _poll(): bounded by contexts and buffered events *)
-      poll_loop 4000 sx inj []
+      poll_loop cn 4000 sx inj []
   | _ => exec_simple sx c
   end.
+Definition exec := exec_gen 0.
 
 Definition exec_all (s : st) (cs : list cmd) : st * list op := fold_left exec cs (s, []).
+
+Definition exec_all_fast (n : nat) (s : st) (cs : list cmd) : st :=
+  fold_left (fun s c => fst (exec_gen n (s, []) c)) cs s.
 End X.
 
 (* ------------------------------------------------------------------ decoding a case *)
@@ -206,6 +229,17 @@ Fixpoint dec_cmds (fuel : nat) (l : list N) : list cmd :=
     end
   end.
 
+(* 1 + the largest thread id used by a case, 0 (= no compaction) for small cases *)
+Definition cmd_thread (c : cmd) : nat :=
+  match c with CLog t _ _ | CResume t | CFlush t _ | CExit t => S t | _ => 0%nat end.
+Fixpoint cmds_max (cs : list cmd) : nat :=
+  match cs with
+  | [] => 0%nat
+  | CPoll inj :: r => Nat.max (fold_right (fun '(_, _, l) a => Nat.max (fold_right (fun c b => Nat.max (cmd_thread c) b) 0%nat l) a) 0%nat inj) (cmds_max r)
+  | c :: r => Nat.max (cmd_thread c) (cmds_max r)
+  end.
+Definition cmds_threads (cs : list cmd) : nat := let n := cmds_max cs in if Nat.leb n 24 then 0%nat else n.
+
 (* loggers: nloggers, then per logger: level nsinks sink... ; sinks: nsinks, then per sink: level nthrow idx... *)
 Fixpoint dec_loggers (n : nat) (i : nat) (l : list N) (f : nat -> lgr) : (nat -> lgr) * list N :=
   match n with
@@ -251,7 +285,7 @@ Definition be_run_enc (l : list N) : list N :=
       | ns :: r2 =>
           let (skf, r3) := dec_sinks (N.to_nat ns) 0 r2 (fun _ => {| slevel := 0; swrites := 0; sthrow := [] |}) in
           let cs := dec_cmds (length r3) r3 in
-          obs (fst (exec_all K (st0 clock0 (N.to_nat nl) (N.to_nat ns) lgf skf) cs))
+          obs (exec_all_fast K (cmds_threads cs) (st0 clock0 (N.to_nat nl) (N.to_nat ns) lgf skf) cs)
       | [] => []
       end
   | _ => []
